@@ -390,6 +390,9 @@ def m_min(eng, st, args, kwargs, node):
     if len(args) == 2 and all(isinstance(a, (VInt, VBool)) for a in args):
         x, y = eng.as_int(args[0]), eng.as_int(args[1])
         return VInt(z3.If(x <= y, x, y))
+    if len(args) == 2 and all(isinstance(a, (VInt, VBool, VFloat)) for a in args):
+        x, y = as_float(args[0]), as_float(args[1])
+        return ite(flt(y, x), y, x)           # Python: min(x, y) is y if y < x else x (a NaN never compares smaller)
     raise Unsupported("min")
 
 
@@ -399,7 +402,7 @@ def m_max(eng, st, args, kwargs, node):
         return VInt(z3.If(x >= y, x, y))
     if len(args) == 2 and all(isinstance(a, (VInt, VBool, VFloat)) for a in args):
         x, y = as_float(args[0]), as_float(args[1])
-        return ite(fle(y, x), x, y)
+        return ite(flt(x, y), y, x)           # Python: max(x, y) is y if y > x else x
     raise Unsupported("max")
 
 
@@ -1461,6 +1464,84 @@ def m_np_nanargmin(eng, st, args, kwargs, node):
     return r
 
 
+def m_np_argmin(eng, st, args, kwargs, node):
+    """np.argmin / np.argmax-free: the first index of the smallest entry -- but if the array holds a NaN, numpy returns the index of the
+    first NaN (NaN propagates through the reduction)."""
+    o = st.heap[args[0].addr] if isinstance(args[0], VRef) else seq_of(eng, st, args[0], node)
+    g, n = o.get, o.len
+    eng.oblige(st, "argmin of a non-empty sequence (else ValueError)", n > 0, "safety", node)
+    j, some = argmin_witness(eng, st, o)
+    hasnan = any_of(eng, n, lambda q: as_float(g(q)).nan, "hasnan")
+    fn_ = z3.Int(fresh_name("firstnan"))
+    k = z3.Int(fresh_name("k!fn"))
+    eng.axioms.append(z3.Implies(hasnan, z3.And(0 <= fn_, fn_ < n, as_float(g(fn_)).nan,
+                                                z3.ForAll([k], z3.Implies(z3.And(0 <= k, k < fn_), z3.Not(as_float(g(k)).nan))))))
+    r = VInt(z3.If(hasnan, fn_, j))
+    st.assume(z3.Implies(z3.Not(hasnan), some) if True else z3.BoolVal(True))      # a non-empty array without NaN has a non-NaN entry (n > 0 was obliged)
+    r.nonneg = True
+    return r
+
+
+def m_fill(eng, st, recv, args, kwargs, node):
+    o = st.heap[recv.addr]
+    if not isinstance(o, HSeq):
+        raise Unsupported(".fill on %r" % (o,))
+    v = args[0]
+    e0 = o.get(z3.Int("k!probe"))
+    vv = as_float(v) if isinstance(e0, VFloat) else v
+    st.heap[recv.addr] = HSeq(o.len, lambda k: vv, numpy=o.numpy, etype=o.etype)
+    return VNone()
+
+
+def m_sum_method(eng, st, recv, args, kwargs, node):
+    return m_np_sum(eng, st, [recv] + list(args), kwargs, node)
+
+
+def m_np_count_nonzero(eng, st, args, kwargs, node):
+    o = seq_of(eng, st, args[0], node)
+    e0 = o.get(z3.Int("k!probe"))
+    if isinstance(e0, VBool):
+        return m_np_sum(eng, st, args, kwargs, node)
+    g = o.get
+    return m_np_sum(eng, st, [st.alloc(HSeq(o.len, lambda k: VBool(eng.truth(g(k), st)), numpy=True))], kwargs, node)
+
+
+def m_np_like(value):
+    def m(eng, st, args, kwargs, node):
+        o = seq_of(eng, st, args[0], node)
+        e0 = o.get(z3.Int("k!probe"))
+        v = VFloat(value) if isinstance(e0, VFloat) else VInt(value)
+        return st.alloc(HSeq(o.len, lambda k: v, numpy=True, etype=o.etype))
+    return m
+
+
+def m_list_index(eng, st, recv, args, kwargs, node):
+    """list.index(v): the first position holding v; ValueError if there is none (obligation)"""
+    o = st.heap[recv.addr] if isinstance(recv, VRef) else None
+    if not isinstance(o, HSeq) or len(args) != 1:
+        raise Unsupported(".index on %r" % (recv,))
+    g, n = o.get, o.len
+    vt = eng.key_term(args[0])
+    isin = any_of(eng, n, lambda q: eng.key_term(g(q)) == vt, "inlist")
+    eng.oblige(st, "list.index: the value is in the list (else ValueError)", isin, "safety", node)
+    st.assume(isin)
+    r = z3.Int(fresh_name("index"))
+    k = z3.Int(fresh_name("k!ix"))
+    st.assume(z3.And(0 <= r, r < n, eng.key_term(g(r)) == vt, z3.ForAll([k], z3.Implies(z3.And(0 <= k, k < r), eng.key_term(g(k)) != vt))))
+    out = VInt(r)
+    out.nonneg = True
+    return out
+
+
+def m_math_isnan(eng, st, args, kwargs, node):
+    v = args[0]
+    if isinstance(v, VFloat):
+        return VBool(v.nan)
+    if isinstance(v, (VInt, VBool)):
+        return VBool(False)
+    raise Unsupported("math.isnan(%r)" % (v,))
+
+
 def m_np_nanmin(eng, st, args, kwargs, node):
     o = st.heap[args[0].addr] if isinstance(args[0], VRef) else seq_of(eng, st, args[0], node)
     j, some = argmin_witness(eng, st, o)
@@ -1603,7 +1684,8 @@ def install(eng):
                   ("min", m_min), ("max", m_max), ("set", m_set), ("str", m_str),
                   ("any", m_np_any), ("all", m_np_all)]:
         M["builtin:" + nm] = f
-    for nm in ("dict", "bool", "tuple", "reversed"):
+    M["builtin:bool"] = lambda eng, st, args, kwargs, node: VBool(eng.truth(args[0], st)) if args else VBool(False)
+    for nm in ("dict", "tuple", "reversed"):
         M.setdefault("builtin:" + nm, None)
     eng.module_consts["dict"] = VConc("builtin:dict")
     M["OrderedDict"] = m_ordereddict
@@ -1623,6 +1705,12 @@ def install(eng):
     M["np.zeros"] = m_np_zeros2
     M["np.nanmin"] = m_np_nanmin
     M["np.nanargmin"] = m_np_nanargmin
+    M["np.argmin"] = m_np_argmin
+    M["np.count_nonzero"] = m_np_count_nonzero
+    M["np.zeros_like"] = m_np_like(0)
+    M["np.ones_like"] = m_np_like(1)
+    M["math.isnan"] = m_math_isnan
+    eng.methods.update({"fill": m_fill, "sum": m_sum_method, "index": m_list_index})
     M["np.vstack"] = m_np_vstack
     M["np.transpose"] = m_np_transpose
     M["np.atleast_2d"] = lambda eng, st, args, kwargs, node: args[0] if (isinstance(args[0], VRef) and isinstance(st.heap[args[0].addr], H2D)) else (_ for _ in ()).throw(Unsupported("np.atleast_2d of a non-matrix"))
